@@ -4,7 +4,7 @@ import os
 from pyvc.api import *
 from pyvc.spec import callee_of
 
-SPEC_IMPORTS = ['contracts.common']
+SPEC_IMPORTS = ['contracts.common', 'contracts.c12']
 SPEC_FUNCTIONS = []
 
 
@@ -121,6 +121,19 @@ _get_sys_path = Contract(
          'env_sys_path': ['/env/lib'], 'script_path': None},
         {'path': '/proj', 'sys_path': ['/x', '/proj'], 'added': [], 'smart': True,
          'env_sys_path': ['/env/lib'], 'script_path': '/elsewhere/mod.py'},
+        # script outside the project, in a sibling directory whose NAME extends the project directory's name
+        {'path': '/t/app', 'sys_path': None, 'added': [], 'smart': True,
+         'env_sys_path': ['/env/lib'], 'script_path': '/t/app_tests/unit/test_x.py'},
+        {'path': '/t/app', 'sys_path': ['/s'], 'added': [], 'smart': True,
+         'env_sys_path': ['/env/lib'], 'script_path': '/t/app/pkg/deep/mod.py'},
+    ],
+    concrete_ensures=[
+        # nothing but the documented sources: every entry is the project dir, an explicit/base/added entry, or a
+        # directory inside the project
+        'all(x == str(self._path) or x in (self._sys_path if self._sys_path is not None else '
+        'inference_state.environment.get_sys_path()) or x in self.added_sys_path or self._path in Path(x).parents '
+        'for x in result)',
+        'len(set(result)) == len(result)',
     ],
 )
 
@@ -208,3 +221,9 @@ NOT_DECIDED = ['discover_buildout_paths content (inference)', 'file-system predi
 TRUSTED = ['json.load(json.dump(x)) == x on JSON-able values (tuples read back as lists)',
            'pathlib.Path as normalised strings; Path.parents as a sequence of proper ancestors',
            'inference_state_as_method_param_cache is a transparent memo per inference state']
+
+
+def dynamic_contracts(repo):
+    """the lookup itself runs on the path it was given (contract shared with C12)"""
+    from contracts import c12
+    return [c12._get_module_info]
